@@ -95,6 +95,24 @@ def battery(fqe, seed, tier):
         out[f"wide-evolve:{norb}:{na}:{nb}"] = enc(res.ravel()[:: max(1, res.size // 6000)])
         res = w.apply(fqe.get_restricted_hamiltonian((h,))).get_coeff((na + nb, na - nb))
         out[f"wide-apply:{norb}:{na}:{nb}"] = enc(res.ravel()[:: max(1, res.size // 6000)])
+    # diagonal Hamiltonians in every storage form: length norb / 2 norb, float64 / complex128, equal / different spin halves
+    for norb, secs in ((3, [[2, 0, 3], [3, 1, 3]]), (4, [[4, 0, 4]])):
+        w = fqe.Wavefunction(secs)
+        U.random_fill(w, rng, zero_p=0.0)
+        nrd = numpy.random.RandomState(rng.randrange(2**31))
+        for tag, hd in (("spatial-real", nrd.randint(-3, 4, norb).astype(numpy.float64)),
+                        ("spatial-complex", nrd.randint(-3, 4, norb).astype(numpy.complex128)),
+                        ("spin-real", nrd.randint(-3, 4, 2 * norb).astype(numpy.float64)),
+                        ("spin-complex", nrd.randint(-3, 4, 2 * norb).astype(numpy.complex128))):
+            ham = fqe.get_diagonal_hamiltonian(hd, e_0=0.5)
+            res = w.apply(ham)
+            for key in sorted(res.sectors()):
+                out[f"diag-apply:{tag}:{norb}:{key}"] = enc(res.get_coeff(key))
+            wn = copy.deepcopy(w)
+            wn.normalize()
+            ev = wn.time_evolve(0.3, ham)
+            for key in sorted(ev.sectors()):
+                out[f"diag-evolve:{tag}:{norb}:{key}"] = enc(ev.get_coeff(key))
     # apply / evolve / rdm / cirq on random small cases
     ncases = 40 if quick else 400
     for case in range(ncases + (8 if quick else 40)):
